@@ -254,6 +254,16 @@ def run(ctx: Ctx) -> None:
             kinds = sorted({str(o[0]) for o in outs})
             ctx.check(kinds == [ck], "Q3", f"value '{word}' followed by {what}", repo.loc("parser", repo.func("parser.Parser.parse")), f"{ck} unchanged", f"after a keyword whose bare-word value is spelled '{word}', the following {what} token is read as {kinds}: leaving the value unquoted changes the parse (KEY {word} DATA ... fails, KEY \"{word}\" DATA ... parses)")
 
+    # only bare words and the GRID keyword are ever re-typed: a number, a quoted string, a bracket ... after
+    # NAME / SYMBOL keeps its kind whatever the spelling of the keyword before it
+    ctx.rule("Q4", "the token loop of Parser.parse changes the kind of bare words and GRID only: every other token keeps its kind after any previous keyword (NAME, SYMBOL, ...)", 12)
+    others = [("SIGNED_INT", lambda: "7"), ("SIGNED_FLOAT", lambda: "7.5"), ("DOUBLE_QUOTED_STRING", lambda: SStr(['"', Atom("s", nonempty=False, excludes=frozenset('"')), '"'])), ("LSQB", lambda: "["), ("LPAR", lambda: "("), ("_END", lambda: anycase("end"))]
+    for pk, pv in (("UNQUOTED_STRING", "name"), ("UNQUOTED_STRING", "symbol"), ("SYMBOL", "symbol"), ("UNQUOTED_STRING", "grid")):
+        for ck, cf in others:
+            outs = models.retag_outcomes(e, (pk, anycase(pv)), ck, cf, below="tree")
+            kinds = sorted({str(o[0]) for o in outs})
+            ctx.check(kinds == [ck], "Q4", f"{ck} after the keyword {pv.upper()} ({pk})", repo.loc("parser", repo.func("parser.Parser.parse")), f"{ck} unchanged", f"a {ck} token that follows the keyword {pv.upper()} leaves the token loop as {kinds}: e.g. NAME 7 would be read as a string, NAME [attr] / NAME (1=1) would not parse")
+
     # transformer callbacks that look at keyword text
     I2 = e.interp(allow_fork=True, max_paths=32)
     tok = lambda kind, w: models.token(kind, SStr.atom("kw_" + w, lower_is=w))
